@@ -407,7 +407,7 @@ def opFrame (j : Json) : Except String Json := do
       | none =>
         -- told apart for the harness: no binding has this (id, bus) / a binding has it but the data is not an
         -- encoding of one of its values (a foreign or truncated payload: outside the property)
-        match bs.find? (fun b => b.id == f.sid && b.bus == Cpp.busName f.bus) with
+        match bs.find? (fun b => b.id == f.sid && b.tag == Cpp.busName f.bus) with
         | some b => pure (Json.mkObj [("none", true), ("undecodable_for", b.name)])
         | none => pure (Json.mkObj [("none", true)])
   return Json.mkObj [("items", Json.arr outs)]
